@@ -66,10 +66,13 @@ def to_case(o):
 
 
 def run(ctx):
-    rc, out, obs = ctx.gotest("p9", "^TestVerifC12$", ["vh_common_test.go", "c12_test.go"], timeout=900)
+    rc, out, obs = ctx.gotest("p9", "^TestVerifC12$", ["vh_common_test.go", "c12_test.go"], timeout=600)
     if rc != 0 or not obs:
         ctx.harness_broken("harness TestVerifC12 failed (rc=%d)" % rc, out)
         return
+    for o in obs:
+        if o.get("hang"):
+            ctx.violation("C12:client-hang", "a client call did not return within 20 s after negotiation (frames no longer fit the announced msize?)", o)
     shard = 400
     texts = []
     for i in range(0, len(obs), shard):
